@@ -1019,7 +1019,7 @@ func DegenLoop(n int, c bool) int {
 	return s
 }
 
-func DegenLabels(a int, c bool) int {
+func DegenLabels(n int, c bool) int {
 	if c {
 		goto B
 	}
@@ -1028,15 +1028,15 @@ A:
 B:
 C:
 	use(2)
-	if a > 3 {
-		a--
+	if n > 3 {
+		n--
 		goto A
 	}
-	if a > 2 {
-		a--
+	if n > 2 {
+		n--
 		goto C
 	}
-	return a
+	return n
 }
 
 // ---- label order differs from control-flow order ----
